@@ -17,7 +17,7 @@ int main(int argc, char** argv)
     {
         auto doc = js::load(a.replay);
         const js::Value& w = doc.has("witness") ? doc.at("witness") : doc;
-        if (w.has("pod"))
+        if (w.has("pod") || w.has("ramp_length"))
         {
             mc::Report r;
             fvpod::all("C07", r, false);
